@@ -136,7 +136,9 @@ def pick_configs(kit):
     cfgs = [c for c in kit.configs() if c["steps"] >= 4]
     cfgs.sort(key=lambda c: c["steps"])
     if kit.tier == "quick":
-        return cfgs[:1] + ([cfgs[len(cfgs) // 2]] if len(cfgs) > 2 else [])
+        # one mid-sized configuration: a time limit of a few steps gives none/some/all termination patterns in a batch
+        # (a limit of 1 would end every element on every step)
+        return [cfgs[len(cfgs) // 2]] if len(cfgs) > 2 else cfgs[:1]
     return cfgs
 
 
